@@ -49,6 +49,8 @@ type VC struct {
 	inQuant  int             // >0 while evaluating a quantifier body
 	defs     map[string]string
 	lemma    map[int]bool // assumption indices that are proved-elsewhere lemmas
+	lastType map[string]types.Type
+	labels   map[string]bool // ghost call-history labels the contract under verification uses
 	curPos   token.Pos
 }
 
@@ -496,6 +498,8 @@ func zeroTerm(k Kind) Term {
 		return "(i2f 0)"
 	case KT:
 		return "tzero"
+	case KM:
+		return tFalse
 	}
 	panic("zero")
 }
@@ -767,6 +771,8 @@ func zeroArr(k Kind) Term {
 		return "zarrF"
 	case KT:
 		return "zarrT"
+	case KM:
+		return "((as const (Array Int Bool)) false)"
 	}
 	panic("zeroArr")
 }
